@@ -96,7 +96,7 @@ PER_NOTE = {
     'C12': 'in-process composition (no TCP, no threads); messages enter through a stub of decode_msg',
     'C13': 'virtual time, horizon K wake-ups, 1-2 modules; real-time behaviour and long horizons outside',
     'C14': 'call budget 3/4 symbolic state calls, maxloops 3; pre-emption inside cycle() NOT claimed',
-    'C15': 'all attachment graphs with out-degree <= 1 on <= 3/4 modules incl. cycles and flaws, all graphs with out-degree <= 2 on 3/4 modules; fake threads (eager or deferred), no real threads',
+    'C15': 'all attachment graphs with out-degree <= 1 on <= 3/4 modules incl. cycles and flaws, all graphs with out-degree <= 2 on 3 modules; fake threads (eager or deferred), no real threads',
     'C16': 'concurrent callers only within <= 2/3 pre-emptions at lock and I/O points for 2-3 threads; real sockets/serial lines NOT claimed',
     'C17': 'in-memory file system model (atomic rename of inodes, write-through or buffered-until-close file data by selector); fsync level effects outside',
     'C18': 'catalogue layouts / label sets; two open known findings (see known_findings.json)',
